@@ -1502,6 +1502,8 @@ class _DynamicallyDefineDataIdentifierResponse(
         return (
             isinstance(request, _DynamicallyDefineDataIdentifierRequest)
             and self.sub_function == request.sub_function
+            and self.dynamically_defined_data_identifier
+            == request.dynamically_defined_data_identifier
         )
 
 
